@@ -30,12 +30,13 @@ type sseNotificationSender struct {
 }
 
 // newSSENotificationSender creates an SSE notification sender
-func newSSENotificationSender(w http.ResponseWriter, f http.Flusher, sessionID string) *sseNotificationSender {
+// The SSE writer is the one of the stream's responder: one event-id counter per stream.
+func newSSENotificationSender(w http.ResponseWriter, f http.Flusher, sessionID string, sseWriter *sseutil.Writer) *sseNotificationSender {
 	return &sseNotificationSender{
 		writer:    w,
 		flusher:   f,
 		sessionID: sessionID,
-		sseWriter: sseutil.NewWriter(),
+		sseWriter: sseWriter,
 	}
 }
 
